@@ -1741,3 +1741,255 @@ func ruleHostOpaque(id string) func(*Checker) {
 		}
 	}
 }
+
+// causeOf: the error-typed values a fresh fmt.Errorf / errors.New carries as arguments (its cause).
+func errorArgsOfFresh(cl *ssa.Call) []ssa.Value {
+	var out []ssa.Value
+	for _, a := range cl.Call.Args {
+		if isErrorType(a.Type()) {
+			out = append(out, a)
+		}
+		// the variadic ...any: values stored into the argument array
+		if sl, ok := a.(*ssa.Slice); ok {
+			if al, ok := sl.X.(*ssa.Alloc); ok {
+				for _, w := range elemWrites(al) {
+					v := w.Val
+					for {
+						switch x := v.(type) {
+						case *ssa.MakeInterface:
+							v = x.X
+							continue
+						case *ssa.ChangeInterface:
+							v = x.X
+							continue
+						}
+						break
+					}
+					if isErrorType(v.Type()) {
+						out = append(out, v)
+					}
+				}
+			}
+		}
+	}
+	return out
+}
+
+// ruleRefusalsAreIllegalSlug — what Unpack refuses on its own judgement is an IllegalSlugError.
+func ruleRefusalsAreIllegalSlug(id string) func(*Checker) {
+	return func(c *Checker) {
+		c.rule(id, "In what Unpack reaches (module code), an error made on the spot without a cause — fmt.Errorf / errors.New with no error among its arguments: a judgement about the archive, not a failed system call — reaches Unpack's caller only inside an *IllegalSlugError: it is stored into the Err field of one where it is made, or it is returned to callers every one of which does that with it. A new early refusal that returns the bare error (same wording) takes the rejection out of reach of errors.As.", 3)
+		p := c.P
+		unpack := p.Fn("slug", "Packer.Unpack")
+		if unpack == nil {
+			c.anchorMissing(id, "(*Packer).Unpack")
+			return
+		}
+		fam := p.reach(unpack)
+		isIllegalErrField := func(addr ssa.Value) bool {
+			fa, ok := addr.(*ssa.FieldAddr)
+			return ok && fieldOf(fa) != nil && fieldOf(fa).Name() == "Err" && isNamedT(derefType(fa.X.Type()), "IllegalSlugError")
+		}
+		// does the error value v (in fn) end up inside an IllegalSlugError, here or at every caller?
+		var wrapped func(v ssa.Value, fn *ssa.Function, depth int, seen map[ssa.Value]bool) (bool, string)
+		wrapped = func(v ssa.Value, fn *ssa.Function, depth int, seen map[ssa.Value]bool) (bool, string) {
+			if seen[v] {
+				return true, ""
+			}
+			seen[v] = true
+			refs := v.Referrers()
+			if refs == nil {
+				return true, ""
+			}
+			returned := false
+			for _, r := range *refs {
+				switch x := r.(type) {
+				case *ssa.Store:
+					if x.Val != v {
+						continue
+					}
+					if isIllegalErrField(x.Addr) {
+						return true, ""
+					}
+					if al, ok := x.Addr.(*ssa.Alloc); ok {
+						// a result cell or local: follow the loads
+						for _, ld := range reachingLoads(x, al) {
+							if ok2, why := wrapped(ld, fn, depth, seen); !ok2 {
+								return false, why
+							}
+						}
+					}
+				case *ssa.Phi, *ssa.MakeInterface, *ssa.ChangeInterface:
+					if ok2, why := wrapped(x.(ssa.Value), fn, depth, seen); !ok2 {
+						return false, why
+					}
+				case *ssa.Return:
+					returned = true
+				case *ssa.Call:
+					// wrapped with %w into another fresh error: that one is judged in its turn (it has a cause: this one)
+					if definitelyNonNilErr(x) {
+						if ok2, why := wrapped(x, fn, depth, seen); !ok2 {
+							return false, why
+						}
+					}
+				}
+			}
+			if !returned {
+				return true, ""
+			}
+			if fn == unpack {
+				return false, "returned by Unpack as it is"
+			}
+			if depth == 0 {
+				return false, "returned through more helpers than the rule follows"
+			}
+			sites := p.callersOf(fn)
+			n := 0
+			for _, site := range sites {
+				if !fam[site.Parent()] {
+					continue
+				}
+				n++
+				sc, ok := site.(*ssa.Call)
+				if !ok {
+					return false, "returned to a deferred or go call"
+				}
+				ev := errValueOf(sc)
+				if ev == nil {
+					continue
+				}
+				if ok2, why := wrapped(ev, site.Parent(), depth-1, map[ssa.Value]bool{}); !ok2 {
+					return false, why + " (through " + p.FuncName(fn) + ")"
+				}
+			}
+			_ = n
+			return true, ""
+		}
+		n := 0
+		for _, fn := range sortedFuncs(fam) {
+			if !p.InModule(fn) {
+				continue
+			}
+			for _, ci := range callsIn(fn) {
+				cl, ok := ci.(*ssa.Call)
+				if !ok {
+					continue
+				}
+				o := calleeObj(cl)
+				if !(isFunc(o, "errors", "New") || isFunc(o, "fmt", "Errorf")) {
+					continue
+				}
+				if len(errorArgsOfFresh(cl)) > 0 {
+					continue // a failed call reported with its cause
+				}
+				n++
+				okw, why := wrapped(cl, fn, 3, map[ssa.Value]bool{})
+				what := "cause-less error"
+				if k, isC := constString(cl.Call.Args[0]); isC {
+					if len(k) > 28 {
+						k = k[:28]
+					}
+					what += " " + strconv.Quote(k)
+				}
+				c.check(okw, id, p.FuncName(fn), what, p.Pos(cl.Pos()), "ends up in the Err field of an IllegalSlugError", "a refusal made on the spot (no failed call behind it) reaches Unpack's caller as a plain error: "+why+" — callers that tell illegal slugs from I/O failures with errors.As no longer recognise it")
+			}
+		}
+	}
+}
+
+// ruleLoopVarAddrKept — the address of a per-loop variable is not kept beyond the iteration.
+func ruleLoopVarAddrKept(id, pkg string) func(*Checker) {
+	return func(c *Checker) {
+		c.rule(id, "With the language version the module declares (go.mod: before 1.22 a range or for variable is one variable for the whole loop — go/ssa builds it that way: one allocation in front of the loop, stored to in every iteration), the address of such a variable is not stored into a map, a slice element, a field or appended to a slice inside the loop: every entry kept that way points at the same variable, which holds the last element when the loop is over (`for _, info := range infos { index[key] = &info }` records the last version's deprecation for all of them).", 0)
+		c.absence(id)
+		p := c.P
+		for _, fn := range p.Funcs {
+			if fn.Package() == nil && p.encl[fn] == nil {
+				continue
+			}
+			if !p.InModule(fn) || !strings.HasSuffix(pkgPathOf(p, fn), pkg) {
+				continue
+			}
+			eachInstr(fn, func(in ssa.Instruction) {
+				al, ok := in.(*ssa.Alloc)
+				if !ok || !al.Heap {
+					return
+				}
+				refs := al.Referrers()
+				if refs == nil {
+					return
+				}
+				// stored to inside a loop the allocation is outside of
+				var loopStores []*ssa.Store
+				for _, r := range *refs {
+					st, ok := r.(*ssa.Store)
+					if !ok || st.Addr != ssa.Value(al) {
+						continue
+					}
+					if st.Block() != al.Block() && blockDominates(al.Block(), st.Block()) && reaches(st.Block(), st.Block()) && !reaches(st.Block(), al.Block()) {
+						loopStores = append(loopStores, st)
+					}
+				}
+				if len(loopStores) == 0 {
+					return
+				}
+				inLoop := func(b *ssa.BasicBlock) bool {
+					for _, st := range loopStores {
+						if b == st.Block() || (reaches(st.Block(), b) && reaches(b, st.Block())) {
+							return true
+						}
+					}
+					return false
+				}
+				for _, r := range *refs {
+					kept := ""
+					switch x := r.(type) {
+					case *ssa.Store:
+						if x.Val == ssa.Value(al) {
+							switch x.Addr.(type) {
+							case *ssa.FieldAddr, *ssa.IndexAddr:
+								kept = "stored into a field or element"
+							}
+							// an element of an argument list of append
+							if ia, ok := x.Addr.(*ssa.IndexAddr); ok {
+								if va, ok := ia.X.(*ssa.Alloc); ok && va.Comment == "varargs" {
+									kept = "appended to a slice"
+								}
+							}
+						}
+					case *ssa.MapUpdate:
+						if x.Value == ssa.Value(al) {
+							kept = "stored into a map"
+						}
+					}
+					if kept == "" || !inLoop(r.Block()) {
+						continue
+					}
+					c.fail(id, p.FuncName(fn), "address of loop variable "+al.Comment+" kept", p.Pos(r.Pos()), "the address of the loop variable "+al.Comment+" is "+kept+" inside the loop: under the module's language version it is one variable for all iterations, so every kept pointer shows the last element")
+				}
+			})
+		}
+	}
+}
+
+func pkgPathOf(p *Prog, fn *ssa.Function) string {
+	for fn != nil {
+		if fn.Package() != nil {
+			return fn.Package().Pkg.Path()
+		}
+		if e := p.encl[fn]; e != nil && e != fn {
+			fn = e
+			continue
+		}
+		if par := fn.Parent(); par != nil {
+			fn = par
+			continue
+		}
+		if o := fn.Origin(); o != nil && o != fn {
+			fn = o
+			continue
+		}
+		break
+	}
+	return ""
+}
